@@ -27,7 +27,7 @@ open SvModel Gen
 variable {α : Type}
 
 inductive SOp (α : Type) where
-  | pushBack (v : α) | pushBackSelf (i : Nat) | popBack | erase (p : Nat) | eraseRange (p q : Nat) | clear
+  | pushBack (v : α) | pushBackMove (v : α) | pushBackSelf (i : Nat) | popBack | erase (p : Nat) | eraseRange (p q : Nat) | clear
   | reserve (n : Nat) | shrinkToFit | resize (n : Nat) (dflt : α) | resizeVal (n : Nat) (v : α)
   | append (vs : List α) | insertEndN (n : Nat) (v : α)
   | insert (p : Nat) (v : α) | insertMove (p : Nat) (v : α) | insertSelf (p i : Nat)
@@ -50,6 +50,7 @@ def SOp.valid (size : Nat) : SOp α → Prop
 /-- the model program of the call on container `c` (the aliasing source is resolved against the current buffer) -/
 def SOp.run (cfg : Cfg) (c : Nat) (w : World α) : SOp α → M α Unit
   | .pushBack v => appendElement cfg c (.ext v) >>= fun _ => pure ()
+  | .pushBackMove v => appendElement cfg c (.extMove v) >>= fun _ => pure ()     -- push_back (T&&) / emplace_back of a prvalue
   | .pushBackSelf i => appendElement cfg c (.copyOf (w.hdr c).data i) >>= fun _ => pure ()
   | .popBack => eraseLast cfg c
   | .erase p => eraseAt cfg c p >>= fun _ => pure ()
@@ -73,6 +74,7 @@ def SOp.run (cfg : Cfg) (c : Nat) (w : World α) : SOp α → M α Unit
 /-- what std::vector does (Spec/L0.lean) -/
 def SOp.spec : SOp α → List (Val α) → List (Val α)
   | .pushBack v, xs => L0.pushBack xs (.val v)
+  | .pushBackMove v, xs => L0.pushBack xs (.val v)
   | .pushBackSelf i, xs => L0.pushBack xs (xs.getD i .husk)
   | .popBack, xs => L0.popBack xs
   | .erase p, xs => (L0.eraseAt xs p).1
@@ -128,6 +130,17 @@ theorem step_basic (cfg : Cfg) (c : Nat) (op : SOp α) (w : World α) (xs : List
     show match (appendElement cfg c (.ext v) >>= fun _ => pure ()) w with | .ok _ w' => _ | .thrown _ w' => _
     rw [run_discard]
     cases hr : appendElement cfg c (.ext v) w with
+    | ok r w' =>
+      have h := sat_of_ok (appendElement_sat cfg c _ w hp.vec hp.led hp.nmax ha hpol) hr
+      exact ⟨⟨h.2.vec, h.2.led, h.2.ub, h.2.frame⟩, (C01.push_back_refines cfg c _ w w' r xs hp ha hpol hx hr).1⟩
+    | thrown e w' =>
+      have h := C05.push_back_strong cfg c _ w w' e xs hp ha hpol hx hr
+      exact ⟨(C06.push_back_basic cfg c _ w w' e hp ha hpol hr), fun _ => h.1⟩
+  | pushBackMove v =>
+    have ha : ArgOK cfg w c (.extMove v) := ⟨rfl, fun _ _ h => by simp [Src.loc] at h, fun _ _ h => by simp [Src.loc] at h⟩
+    show match (appendElement cfg c (.extMove v) >>= fun _ => pure ()) w with | .ok _ w' => _ | .thrown _ w' => _
+    rw [run_discard]
+    cases hr : appendElement cfg c (.extMove v) w with
     | ok r w' =>
       have h := sat_of_ok (appendElement_sat cfg c _ w hp.vec hp.led hp.nmax ha hpol) hr
       exact ⟨⟨h.2.vec, h.2.led, h.2.ub, h.2.frame⟩, (C01.push_back_refines cfg c _ w w' r xs hp ha hpol hx hr).1⟩
